@@ -49,28 +49,17 @@ impl<U: View, V: View> Prune for Modulo<U, V> {
         if y_min == y_max {
             if let Val::ValI(y_val) = y_min {
                 if y_val != 0 {
-                    // For modulo: s is in range [0, |y|-1] when y > 0
-                    // or [-(|y|-1), 0] when y < 0
-                    if y_val > 0 {
-                        let s_theoretical_min = Val::ValI(0);
-                        let s_theoretical_max = Val::ValI(y_val - 1);
-                        
-                        let new_s_min = if s_theoretical_min > s_min { s_theoretical_min } else { s_min };
-                        let new_s_max = if s_theoretical_max < s_max { s_theoretical_max } else { s_max };
-                        
-                        self.s.try_set_min(new_s_min, ctx)?;
-                        self.s.try_set_max(new_s_max, ctx)?;
-                    } else {
-                        // y_val < 0
-                        let s_theoretical_min = Val::ValI(y_val + 1);
-                        let s_theoretical_max = Val::ValI(0);
-                        
-                        let new_s_min = if s_theoretical_min > s_min { s_theoretical_min } else { s_min };
-                        let new_s_max = if s_theoretical_max < s_max { s_theoretical_max } else { s_max };
-                        
-                        self.s.try_set_min(new_s_min, ctx)?;
-                        self.s.try_set_max(new_s_max, ctx)?;
-                    }
+                    // The remainder of `%` takes the sign of the dividend:
+                    // [0, |y|-1] for x >= 0, [-(|y|-1), 0] for x <= 0
+                    let m = y_val.abs() - 1;
+                    let s_theoretical_min = if x_min >= Val::ValI(0) { Val::ValI(0) } else { Val::ValI(-m) };
+                    let s_theoretical_max = if x_max <= Val::ValI(0) { Val::ValI(0) } else { Val::ValI(m) };
+                    
+                    let new_s_min = if s_theoretical_min > s_min { s_theoretical_min } else { s_min };
+                    let new_s_max = if s_theoretical_max < s_max { s_theoretical_max } else { s_max };
+                    
+                    self.s.try_set_min(new_s_min, ctx)?;
+                    self.s.try_set_max(new_s_max, ctx)?;
                 }
             }
         }
